@@ -197,7 +197,10 @@ def demoOps : List Op :=
     .store ⟨false, [5, 5]⟩ [("z", .arr ⟨[1], [9]⟩)],
     .store ⟨true, [1, 1]⟩ [("f", .scalar 1)],
     .exportFile true,
-    .store ⟨false, [0, 1]⟩ [("b", .arr ⟨[2], [1, 1]⟩), ("g", .scalar 2)] ]
+    .store ⟨false, [0, 1]⟩ [("b", .arr ⟨[2], [1, 1]⟩), ("g", .scalar 2)],
+    .store ⟨false, [8, 8]⟩ [("lost", .scalar 0)],
+    .reload,
+    .store ⟨false, [0, 1]⟩ [("b", .arr ⟨[2], [1, 1]⟩)] ]
 
 example : Scoped (fun p => p) State.init demoOps := scoped_of_scopedB _ _ _ (by decide)
 
